@@ -44,7 +44,7 @@ def observe(c, cases, per_prog, nvals, features=(), limit=None):
                 raise vlib.ToolError("generated program %s crashed: %s" % (src, p.stderr[-1500:]))
             f.write(p.stdout)
             nexpr += p.stdout.count('"ev":"Expr"'); nval += p.stdout.count('"ev":"Value"')
-            os.unlink(exe)
+            vlib.discard(exe)
     c.add("programs", len(jobs)); c.add("expressions_observed", nexpr); c.add("values_observed", nval); c.add("evaluations", nexpr + nval)
     c.sample({"program_head": open(jobs[0][0]).read()[:600]})
     return tr
